@@ -60,6 +60,9 @@ def run_property(pid, tier, seed, jobs):
     modname = MODULES[pid]
     mod = importlib.import_module(modname)
     cases = mod.cases(tier)
+    only = [x for x in os.environ.get("VERIF_CASES", "").split(",") if x]      # debugging aid only: never set by a registered command
+    if only:
+        cases = [c for c in cases if any(x in c.name for x in only)]
     if not cases:
         print(f"HARNESS-ERROR property={pid} no cases for tier {tier}")
         return EXIT_HARNESS
